@@ -417,6 +417,28 @@ impl Program {
         (1..=self.items.len()).filter(|b| *b != a && idents.contains(&self.name(*b))).collect()
     }
 
+    /// the declarations whose name occurs in the SIGNATURE of function a (they travel with an import of the function)
+    pub fn sig_refs(&self, a: usize) -> Vec<usize> {
+        let text = match &self.items[a - 1] {
+            Item::FuncSig { params, ret, .. } => format!("{params} {ret}"),
+            Item::Head { text } => text.clone(),
+            _ => return Vec::new(),
+        };
+        let mut idents: Vec<String> = Vec::new();
+        let mut cur = String::new();
+        for c in text.chars() {
+            if c.is_ascii_alphanumeric() || c == '_' {
+                cur.push(c);
+            } else if !cur.is_empty() {
+                idents.push(std::mem::take(&mut cur));
+            }
+        }
+        if !cur.is_empty() {
+            idents.push(cur);
+        }
+        (1..=self.items.len()).filter(|b| *b != a && idents.contains(&self.name(*b))).collect()
+    }
+
     /// the program without its `main` (a library of unrelated declarations)
     pub fn without_main(mut self) -> Program {
         self.items.pop();
